@@ -275,3 +275,31 @@ seed('c07-n-rv-lerp-form', 'C07', [(RV, "        rstate->values[i] = rfrom->valu
 seed('c07-n-time-local', 'C07', [(TIMC, "    state->as<StateType>()->position =\n        from->as<StateType>()->position + (to->as<StateType>()->position - from->as<StateType>()->position) * t;", "    const double a = from->as<StateType>()->position, b = to->as<StateType>()->position;\n    state->as<StateType>()->position = a + (b - a) * t;")], None)
 seed('c07-n-so2-rewrap-reordered', 'C07', [(SO2C, "        if (v > pi)\n            v -= 2.0 * pi;\n        else if (v < -pi)\n            v += 2.0 * pi;\n    }\n}\n\nompl::base::StateSamplerPtr ompl::base::SO2StateSpace::allocDefaultStateSampler", "        if (v < -pi)\n            v += 2.0 * pi;\n        else if (v > pi)\n            v -= 2.0 * pi;\n    }\n}\n\nompl::base::StateSamplerPtr ompl::base::SO2StateSpace::allocDefaultStateSampler")], None)
 seed('c07-n-rs-flag-order', 'C07', [(RS, "        path = reedsShepp(from, to);\n        firstTime = false;\n    }\n    interpolate(from, path, t, state);", "        firstTime = false;\n        path = reedsShepp(from, to);\n    }\n    interpolate(from, path, t, state);")], None)
+
+# ---- C14 -------------------------------------------------------------------------------------------------------
+seed('c14-exhaustive-skips-lrl', 'C14', [(DUB, "        tmp = dubinsLRL(d, alpha, beta);\n        if ((len = tmp.length()) < minLength)\n            path = tmp;\n        return path;", "        return path;")], 'R14a')
+seed('c14-exhaustive-keeps-longer', 'C14', [(DUB, "        tmp = dubinsRSL(d, alpha, beta);\n        if ((len = tmp.length()) < minLength)\n        {", "        tmp = dubinsRSL(d, alpha, beta);\n        if ((len = tmp.length()) > minLength)\n        {")], 'R14a')
+seed('c14-exhaustive-min-not-updated', 'C14', [(DUB, "        if ((len = tmp.length()) < minLength)\n        {\n            minLength = len;\n            path = tmp;\n        }\n        tmp = dubinsRSL(d, alpha, beta);", "        if ((len = tmp.length()) < minLength)\n        {\n            path = tmp;\n        }\n        tmp = dubinsRSL(d, alpha, beta);")], 'R14a')
+seed('c14-solver-wrong-row', 'C14', [(DUB, "            return DubinsStateSpace::DubinsPath(DubinsStateSpace::dubinsPathType()[2], t, p, q);", "            return DubinsStateSpace::DubinsPath(DubinsStateSpace::dubinsPathType()[3], t, p, q);")], 'R14b')
+seed('c14-table-row-swapped', 'C14', [(DUB, "        {{DUBINS_RIGHT, DUBINS_STRAIGHT, DUBINS_LEFT}},\n        {{DUBINS_LEFT, DUBINS_STRAIGHT, DUBINS_RIGHT}},", "        {{DUBINS_LEFT, DUBINS_STRAIGHT, DUBINS_RIGHT}},\n        {{DUBINS_RIGHT, DUBINS_STRAIGHT, DUBINS_LEFT}},")], 'R14b')
+seed('c14-symmetric-no-reverse-mark', 'C14', [(DUB, "                path2.reverse_ = true;\n", "")], 'R14c')
+seed('c14-symmetric-picks-longer', 'C14', [(DUB, "            if (path2.length() < path.length())\n            {\n                path2.reverse_ = true;", "            if (path2.length() > path.length())\n            {\n                path2.reverse_ = true;")], 'R14c')
+seed('c14-rs-interpolate-swapped', 'C14', [(RS, "        path = reedsShepp(from, to);", "        path = reedsShepp(to, from);")], 'R14c')
+seed('c14-reverse-right-sign', 'C14', [(DUB, "                    s->setXY(s->getX() - sin(phi + v) + sin(phi), s->getY() + cos(phi + v) - cos(phi));\n                    s->setYaw(phi + v);", "                    s->setXY(s->getX() - sin(phi + v) + sin(phi), s->getY() + cos(phi + v) - cos(phi));\n                    s->setYaw(phi - v);")], 'R14k')
+seed('c14-straight-sin-cos-swapped', 'C14', [(RS, "                s->setXY(s->getX() + v * cos(phi), s->getY() + v * sin(phi));", "                s->setXY(s->getX() + v * sin(phi), s->getY() + v * cos(phi));")], 'R14k')
+seed('c14-left-arc-chord', 'C14', [(RS, "                s->setXY(s->getX() + sin(phi + v) - sin(phi), s->getY() - cos(phi + v) + cos(phi));\n                s->setYaw(phi + v);", "                s->setXY(s->getX() + v * cos(phi + .5 * v), s->getY() + v * sin(phi + .5 * v));\n                s->setYaw(phi + v);")], 'R14k')
+seed('c14-no-radius-scale', 'C14', [(RS, "    state->as<StateType>()->setY(s->getY() * rho_ + from->as<StateType>()->getY());", "    state->as<StateType>()->setY(s->getY() + from->as<StateType>()->getY());")], 'R14k')
+seed('c14-rs-no-nop-case', 'C14', [(RS, "            case RS_NOP:\n                break;\n", "")], 'R14d')
+seed('c14-helper-sign', 'C14', [(DUB, "        const double theta = atan2f(cb - ca, d + sa - sb);\n        return mod2pi(-alpha + theta);  // t", "        const double theta = atan2f(cb - ca, d - sa + sb);\n        return mod2pi(-alpha + theta);  // t")], 'R14h')
+seed('c14-solver-rsr-q', 'C14', [(DUB, "            double q = mod2pi(-beta + theta);\n            assert(fabs(p * cos(alpha - t) + sa - sb - d) < (1 + p) * DUBINS_EPS);", "            double q = mod2pi(beta - theta);\n            assert(fabs(p * cos(alpha - t) + sa - sb - d) < (1 + p) * DUBINS_EPS);")], 'R14m')
+seed('c14-cell-a13-word', 'C14', [(DUB, "                if (s_13(d, alpha, beta) < 0.0)\n                {\n                    path = dubinsRSR(d, alpha, beta);\n                }\n                else\n                {\n                    path = dubinsLSR(d, alpha, beta);\n                }", "                if (s_13(d, alpha, beta) < 0.0)\n                {\n                    path = dubinsRSR(d, alpha, beta);\n                }\n                else\n                {\n                    path = dubinsRSL(d, alpha, beta);\n                }")], 'R14m')
+seed('c14-cell-a24-test', 'C14', [(DUB, "                if (s_24(d, alpha, beta) < 0.0)\n                {\n                    path = dubinsRSR(d, alpha, beta);\n                }\n                else\n                {\n                    path = dubinsRSL(d, alpha, beta);", "                if (s_14_1(d, alpha, beta) < 0.0)\n                {\n                    path = dubinsRSR(d, alpha, beta);\n                }\n                else\n                {\n                    path = dubinsRSL(d, alpha, beta);")], 'R14m')
+seed('c14-rs-timeflip-sign', 'C14', [(RS, "            path = ReedsSheppStateSpace::ReedsSheppPath(ReedsSheppStateSpace::reedsSheppPathType[14], -t, -u, -v);", "            path = ReedsSheppStateSpace::ReedsSheppPath(ReedsSheppStateSpace::reedsSheppPathType[14], -t, u, -v);")], 'R14e')
+seed('c14-rs-reflect-row', 'C14', [(RS, "            path = ReedsSheppStateSpace::ReedsSheppPath(ReedsSheppStateSpace::reedsSheppPathType[15], t, u, v);", "            path = ReedsSheppStateSpace::ReedsSheppPath(ReedsSheppStateSpace::reedsSheppPathType[14], t, u, v);")], 'R14e')
+seed('c14-rs-reflect-args', 'C14', [(RS, "        if (LpSpLp(x, -y, -phi, t, u, v) && Lmin > (L = fabs(t) + fabs(u) + fabs(v)))  // reflect", "        if (LpSpLp(x, -y, phi, t, u, v) && Lmin > (L = fabs(t) + fabs(u) + fabs(v)))  // reflect")], 'R14e')
+seed('c14-rs-total-length-signed', 'C14', [(RS, "    totalLength_ = fabs(t) + fabs(u) + fabs(v) + fabs(w) + fabs(x);", "    totalLength_ = fabs(t) + fabs(u) + fabs(v) + fabs(w) + x;")], 'R14f')
+# neutral rewrites
+seed('c14-n-exhaustive-le', 'C14', [(DUB, "        tmp = dubinsRLR(d, alpha, beta);\n        if ((len = tmp.length()) < minLength)", "        tmp = dubinsRLR(d, alpha, beta);\n        if ((len = tmp.length()) <= minLength)")], None)
+seed('c14-n-straight-commuted', 'C14', [(RS, "                s->setXY(s->getX() + v * cos(phi), s->getY() + v * sin(phi));", "                s->setXY(cos(phi) * v + s->getX(), sin(phi) * v + s->getY());")], None)
+seed('c14-n-helper-reordered', 'C14', [(DUB, "        const double theta = atan2f(cb - ca, d + sa - sb);\n        return mod2pi(-alpha + theta);  // t", "        const double theta = atan2f(-ca + cb, sa + d - sb);\n        return mod2pi(theta - alpha);  // t")], None)
+seed('c14-n-cell-a13-flipped', 'C14', [(DUB, "                if (s_13(d, alpha, beta) < 0.0)\n                {\n                    path = dubinsRSR(d, alpha, beta);\n                }\n                else\n                {\n                    path = dubinsLSR(d, alpha, beta);\n                }", "                if (s_13(d, alpha, beta) >= 0.0)\n                {\n                    path = dubinsLSR(d, alpha, beta);\n                }\n                else\n                {\n                    path = dubinsRSR(d, alpha, beta);\n                }")], None)
